@@ -239,6 +239,22 @@ def check(rep, tier, seed, driver):
                 rep.count("objective_" + a, b)
             cases.append({"spec": spec, "ops": ops})
         rep.count("lr_%s" % spec["lr"])
+    # many accepted candidates for ONE cell in one call (k = 8, 16, 30 ... in (1-a)^k): few cells, large batches, rising objectives
+    for kb in range(6 if tier == "quick" else 60):
+        spec = au.gen_spec(rng, kinds=("grid", "cvt"), cma=True, max_cells=3)
+        spec["extras"] = []
+        spec["lr"] = rng.choice([0.25, 0.5, 0.75, 0.1, 0.3])
+        pool = [au.gen_measures(rng, spec, []) for _ in range(2)]
+        ops, nid = [], 1
+        for call in range(rng.randint(1, 3)):
+            nb = rng.choice([8, 9, 16, 17, 33])
+            cands = []
+            for j in range(nb):
+                cands.append([nid, float(spec["tmin"]) + 1.0 + rng.randrange(0, 64) / 8.0 + 8.0 * call, list(rng.choice(pool))])
+                nid += 1
+            ops.append(["add", cands, "nd"])
+        cases.append({"spec": spec, "ops": ops})
+        rep.count("many_per_cell_cases")
     exact_ids = {au.canon_hash if False else id(c["ops"]) for c in cases if c.get("exact")}
 
     def compare(spec, ops):
